@@ -78,6 +78,15 @@ func checkC12(c *Ctx) {
 	c.Rule("R12.4", "Stop protocol: atomic test-and-set, close once, wait unlocked, final Sync, non-blocking otherwise", 4)
 	c.Rule("R12.5", "flush loop: done closed on exit, exits only on stop, Sync on every tick; single go statement in initialize", 3)
 	c12Rules(c, "R12.1", "R12.2", "R12.3", "R12.4", "R12.5")
+	c.Rule("R12.6", "every call into the wrapped sink or its bufio writer (Write, Flush, Sync) runs with the mutex held: the sink needs no lock of its own", 2)
+	for _, m := range []string{"Write", "Sync"} {
+		fb := c.Method(CorePath, "BufferedWriteSyncer", m)
+		if c.Anchor("R12.6", "zapcore.BufferedWriteSyncer."+m, fb != nil) {
+			LockedAcross(c, "R12.6", fb, func(cl ssa.CallInstruction) bool {
+				return IsCallTo(cl, "(*bufio.Writer).Write", "(*bufio.Writer).Flush", "(go.uber.org/zap/zapcore.WriteSyncer).Sync")
+			}, ".mu")
+		}
+	}
 }
 
 // c12SinkOwnership: the sink of a BufferedWriteSyncer is written only through
